@@ -11,12 +11,12 @@ def md6_event(d, key, L, r, M, bitlen):
     try:
         h = MD6(d, key, L)
         if r is not None: h.rounds = r
-        e['r'] = int(h.rounds)
+        e['r'] = -1 if r is None else int(h.rounds)          # default round count: the SPEC derives it (40 + d/4, at least 80 with a key)
         out = h(M, bitlen) if bitlen is not None else h(M)
         e['obs'] = B(out) if isinstance(out, (bytes, bytearray)) else [-1]
     except Exception as ex:
         e['raised'] = type(ex).__name__
-        e.setdefault('r', r or 1)
+        e.setdefault('r', -1 if r is None else r)
     return e
 
 def run(ctx):
@@ -38,7 +38,8 @@ def run(ctx):
             k += 1
             if not big and n > 4 * 512 + 1 and L in (2, 3) and k % 2: continue
             d = ds[k % 8]; kl = keys[k % 4]
-            r = [1, 2, 3, 5][k % 4] if n > 1024 else [1, 5, None, 3][k % 4]         # big trees at small round counts (TLC cost), default rounds on short messages
+            r = [6, 7, 6, 8][k % 4] if n > 1024 else [6, 9, None, 7][k % 4]         # >= 6 rounds: below that the last digest words do not depend on every input word (control word, key, node id) - a 2-round digest cannot see a wrong z or p
+            if n <= 1024 and k % 5 == 0: r = [1, 2, 3, 5][(k // 5) % 4]            # the round count itself: small counts on short messages
             if r is None and not big and k % 3: r = 4
             bo = [0, 0, 1, 7, 3, 5, 2, 6, 4][k % 9]
             bitlen = None if (bo == 0 or n == 0) else 8 * n - bo
@@ -46,29 +47,33 @@ def run(ctx):
     for d in ds:                                                                # every digest size incl. d mod 8 != 0, keyed / unkeyed, seq / tree
         for L in (0, 64, 1):
             for kl in (0, 5):
-                ev.append(md6_event(d, rb(kl), L, 2, rb(rnd.choice([3, 600, 1100])), None)); ctx.mark(('d', d, L, kl))
+                ev.append(md6_event(d, rb(kl), L, 6, rb(rnd.choice([3, 600, 1100])), None)); ctx.mark(('d', d, L, kl))
     for bo in range(1, 8):                                                      # every bit-length residue, one and several leaf blocks
         for n, L in ((2, 64), (700, 64), (700, 0), (2100, 1)):
-            ev.append(md6_event(256, b'', L, 2, rb(n), 8 * n - bo)); ctx.mark(('bits', bo, n, L))
+            ev.append(md6_event(256, b'', L, 6, rb(n), 8 * n - bo)); ctx.mark(('bits', bo, n, L))
     for n, cut, L in ((700, 50, 64), (700, 50, 0), (1500, 3, 1), (40, 39, 64)):            # explicit byte-aligned bit length, data longer than that (bytes after the cut are ignored)
         ev.append(md6_event(256, b'', L, 8, rb(n), 8 * (n - cut))); ctx.mark(('bytealigned-bitlen', n, cut, L))
+    for n, bl, L in ((600, 4000, 64), (600, 4096, 64), (2000, 77, 1), (1600, 4097, 2), (2600, 8 * 1024, 64), (900, 8 * 384, 0), (900, 8 * 384 - 5, 0)):    # the bit length ends in an EARLIER block than the buffer does
+        ev.append(md6_event(256, b'', L, 6, rb(n), bl)); ctx.mark(('bitlen in an earlier block', n, bl, L))
+    for d, key in ((128, bytes(1)), (64, bytes(8)), (256, bytes(64)), (128, b'\x00\x00\x01'), (152, bytes(3))):                                       # key content: all-zero keys are keys (default round count of the keyed mode)
+        ev.append(md6_event(d, key, 64, None, rb(20), None)); ctx.mark(('zero key', d, len(key)))
     ev.append(md6_event(64, b'', 64, 170, b'abc', None)); ev.append(md6_event(512, b'k', 0, 200, rb(100), None))      # round counts beyond every default
     def md6call(x):
         from crysp.md import MD6
         h = MD6(128, b'', 64); h.rounds = 9; return h(x)
     for m in core.zero_edge_inputs(md6call, lambda i: b'zm-%d-%d' % (ctx.seed, i), want=2, tries=1500):
         ev.append(md6_event(128, b'', 64, 9, m, None)); ctx.mark(('zero-edge', m))
-    ev.append(md6_event(256, b'', 64, 1, b'ab', 17))                            # bit length beyond the data
+    ev.append(md6_event(256, b'', 64, 6, b'ab', 17))                            # bit length beyond the data
     for d, key, L, M in ((256, b'', 64, b'abc'), (224, b'', 64, b''), (512, b'key', 64, b'abc' * 50), (256, b'', 0, b'abc')):
         ev.append(md6_event(d, key, L, None, M, None))                           # default round counts
     from crysp.md import MD6
     for (d, key, L) in ((256, b'', 0), (224, b'k', 1), (256, b'', 64), (160, b'key', 2)):
         try:
-            h = MD6(d, key, L); h.rounds = 3
+            h = MD6(d, key, L); h.rounds = 6
         except Exception: continue
         for n, bo in ((700, 0), (3, 0), (1300, 5), (600, 0), (2100, 0)):
             M = rb(n); bitlen = None if not bo else 8 * n - bo
-            e = dict(op='md6', d=d, key=B(key), L=L, r=3, m=B(M), bitlen=-1 if bitlen is None else bitlen, raised='', obs=[])
+            e = dict(op='md6', d=d, key=B(key), L=L, r=6, m=B(M), bitlen=-1 if bitlen is None else bitlen, raised='', obs=[])
             try:
                 out = h(M, bitlen) if bitlen is not None else h(M); e['obs'] = B(out)
             except Exception as ex: e['raised'] = type(ex).__name__
